@@ -46,9 +46,22 @@ func buildCases(e *lib.Env) (cases []Case, nEnum int) {
 			cases = append(cases, Case{fmt.Sprintf("enum%d.v%d", idx, v), h})
 		}
 	}
+	// 1b. every extends-DAG over 4 interfaces under a fixed class forest
+	for idx, h := range enumLattices() {
+		r := e.Rand(fmt.Sprintf("lattice/%d", idx))
+		h.randMethods(r, 2)
+		for c := range h.Abstract {
+			h.Abstract[c] = false
+		}
+		if idx%2 == 0 {
+			h.ThrowRoot[0], h.ThrowRoot[2] = true, true
+		}
+		h.finish(r)
+		cases = append(cases, Case{fmt.Sprintf("lattice%d", idx), h})
+	}
 	nEnum = len(cases)
 	// 2. seeded larger hierarchies
-	n := e.Pick(100, 5000)
+	n := e.Pick(300, 5000)
 	for k := 0; k < n; k++ {
 		r := e.Rand(fmt.Sprintf("rand/%d", k))
 		h := randHier(r)
